@@ -82,6 +82,8 @@ ATTRS = [
     'STYLE="Color:red" Class="X"',
     'class="wikitable" style="float:right"',
     'class="toccolours"',
+    'style="display:block"',
+    'style="display:inline"',
 ] + ['class="%s"' % c for c in NO_DISPLAY] + ['id="%s"' % c for c in ("noprint", "navbox")]
 CELL_ATTRS = {1: 'colspan="3" |', 2: 'rowspan="2" style="height:5px" |'}
 
@@ -100,6 +102,8 @@ SNIPS = [
     "<references/>",
     "<h2>html head</h2>",
     "<h3>html head</h3>\nafter html head",
+    "<h2 style=\"display:block\">block head</h2>\n\nafter block head",
+    "<h3 style=\"display:block\">block head</h3>",
     "== See also ==",
     "[http://example.org/w?action=edit edit]",
     "http://example.org/bare",
